@@ -253,7 +253,14 @@ pub fn run(mode: Mode, tier: Tier, seed: u64) -> i32 {
 
     // ---- character strings ----------------------------------------------------------
     let l = tier.pick(6usize, 7usize);
-    for (what, prefix, l) in [("whole text", "", l), ("body after the header 'A B'", "A B\n", l), ("text after a byte order mark", "\u{feff}", l - 1), ("body after a non-ASCII header", "Zähler Ü\n", l - 1)] {
+    let chars2: [char; 16] = ['a', '0', ' ', '\n', '\u{a0}', '\u{b}', '\u{85}', '\u{2028}', '\u{3000}', '\u{c}', '\r', '\t', '#', '(', ';', '\u{1680}'];
+    for (what, prefix, l, alphabet) in [
+        ("whole text", "", l, &CHARS),
+        ("body after the header 'A B'", "A B\n", l, &CHARS),
+        ("text after a byte order mark", "\u{feff}", l - 1, &CHARS),
+        ("body after a non-ASCII header", "Zähler Ü\n", l - 1, &CHARS),
+        ("whole text over an alphabet of Unicode spaces and control characters", "", l - 1, &chars2),
+    ] {
         let n: u64 = (0..=l as u32).map(|k| 16u64.pow(k)).sum();
         let label = format!("all strings of length <= {l} over 16 characters as {what}");
         let st = par_range(&label, n, &deadline, |mut idx, st| {
@@ -265,7 +272,7 @@ pub fn run(mode: Mode, tier: Tier, seed: u64) -> i32 {
             }
             let mut s = String::from(prefix);
             for _ in 0..len {
-                s.push(CHARS[(idx % 16) as usize]);
+                s.push(alphabet[(idx % 16) as usize]);
                 idx /= 16;
             }
             thread_local! { static RENDERED: std::cell::RefCell<HashSet<u64>> = std::cell::RefCell::new(HashSet::new()); }
